@@ -603,6 +603,15 @@ func (cfg *LifeCfg) GenVstorage(t *rapid.T, s *Sim) *Action {
 	if rapid.IntRange(0, 9).Draw(t, "huge") == 0 {
 		sz = rapid.SampledFrom([]int64{1 << 31, 1 << 40, 1<<63 - 1}).Draw(t, "hugeSize")
 	}
+	if pl, ok := s.Last.Pledges[s.bech(p)]; ok && kind == "remove_vstorage" && rapid.IntRange(0, 2).Draw(t, "aimAtFree") > 0 {
+		// aim at the boundary between free capacity and capacity that backs stored shards
+		free := pl.TotalStorage - pl.UsedStorage
+		unit := int64(1_000_000)
+		sz = rapid.SampledFrom([]int64{free, free + 1, free - 1, free / unit * unit, (free/unit + 1) * unit, (free/unit+1)*unit - 1, free + unit, pl.TotalStorage}).Draw(t, "aimed")
+		if sz <= 0 {
+			sz = unit
+		}
+	}
 	a.Size = uint64(sz)
 	return a
 }
